@@ -9,6 +9,7 @@
    biases read from a parameter vector theta_k (row-major weights, then biases). *)
 From NV Require Import Prelude Num NumR Random Tensor Activation Objective Optimizer Layers Network Learn.
 From NV.Theory Require Import Monad Lists Build RSum Adjoint Deriv Chain ChainDense C07 C01 Forward.
+From NV.Theory Require C06.
 Require Import Reals Lra Lia List.
 From Coquelicot Require Import Coquelicot.
 Import ListNotations.
@@ -387,4 +388,313 @@ Proof.
   specialize (G specs [] {| fw_pre := []; fw_post := t_single NR xl :: nil; fw_max := []; fw_fb := [] |} d xl).
   cbn [length app] in G. unfold layers in G |- *. rewrite Hlay, map_length.
   rewrite Hlay in G. rewrite G; [reflexivity|reflexivity|reflexivity|exact Hch|exact Hxl].
+Qed.
+
+(* ---- the backward walk ---- *)
+(* gradient with respect to the input, parameter gradients and input gradients of every layer
+   (all in layer order), by recursion from the first layer: the tail is processed first *)
+Fixpoint gradsL (specs : list (lspec * vec)) (xl gfin : list R) : list R * list vec * list (list R) :=
+  match specs with
+  | [] => (gfin, [], [])
+  | (s, th) :: rest =>
+      let '(gmid, gps, gins) := gradsL rest (outL (s, th) xl) gfin in
+      let b := sbwd (stage_of s) (eff s th) (vof xl) (vof gmid) in
+      let gin := lof (ls_n s) (fst b) in
+      (gin, snd b :: gps, gin :: gins)
+  end.
+
+Definition ws_of (specs : list (lspec * vec)) (gps : list vec) : list (grad NR) :=
+  rev (map (fun q => GPlain (wg_tensor (fst (fst q)) (snd q))) (combine specs gps)).
+Definition bs_of (specs : list (lspec * vec)) (gps : list vec) : list (option (bgrad NR)) :=
+  rev (map (fun q => option_map (@BPlain NR) (bg_tensor (fst (fst q)) (snd q))) (combine specs gps)).
+Definition gs_of (gins : list (list R)) : list (tensor NR) := rev (map (t_single NR) gins).
+
+Lemma gradsL_lengths specs : forall xl gfin,
+  length (snd (fst (gradsL specs xl gfin))) = length specs /\ length (snd (gradsL specs xl gfin)) = length specs.
+Proof.
+  induction specs as [|[s th] rest IH]; intros xl gfin; cbn [gradsL]; [split; reflexivity|].
+  specialize (IH (outL (s, th) xl) gfin). destruct (gradsL rest (outL (s, th) xl) gfin) as [[gmid gps] gins].
+  cbn [fst snd length] in *. destruct IH as [-> ->]. split; reflexivity.
+Qed.
+
+Lemma gradsL_gin_length specs : forall d xl gfin, chainedS specs d -> length gfin = lastD specs d ->
+  length (fst (fst (gradsL specs xl gfin))) = d.
+Proof.
+  induction specs as [|[s th] rest IH]; intros d xl gfin Hc Hg; cbn [gradsL chainedS lastD] in *; [exact Hg|].
+  destruct Hc as (Hn & _). destruct (gradsL rest (outL (s, th) xl) gfin) as [[gmid gps] gins].
+  cbn [fst]. rewrite length_lof. exact Hn.
+Qed.
+
+Lemma combine_snoc A B (l1 : list A) (l2 : list B) a b :
+  length l1 = length l2 -> combine (l1 ++ a :: nil) (l2 ++ b :: nil) = combine l1 l2 ++ (a, b) :: nil.
+Proof.
+  revert l2; induction l1 as [|x l1 IH]; intros [|y l2] H; cbn in H; try discriminate; [reflexivity|].
+  cbn [app combine]. rewrite IH by lia. reflexivity.
+Qed.
+
+Theorem backward_mlp (n : network NR) (specs : list (lspec * vec)) d (xl gl : list R) (f : fwd NR) :
+  n_connect n = [] -> n_layers n = map mkL specs ->
+  chainedS specs d -> length xl = d -> length gl = lastD specs d ->
+  fw_pre f = map (t_single NR) (presL specs xl) ->
+  fw_post f = map (t_single NR) (insL specs xl ++ predL specs xl :: nil) ->
+  fw_max f = repeat None (length specs) ->
+  let '(gin, gps, gins) := gradsL specs xl gl in
+  backward n (t_single NR gl) f = Ok (ws_of specs gps, bs_of specs gps, t_single NR gl :: gs_of gins).
+Proof.
+  intros Hc Hlay Hch Hxl Hgl Hpre Hpost Hmax.
+  unfold backward. rewrite Hc. cbn [invert_net_connect sort_by_key fold_right fold_left].
+  rewrite Hlay, map_length.
+  set (len := length specs).
+  set (step := fun (st : list (tensor NR) * list (grad NR) * list (option (bgrad NR)) *
+                         list (list (tensor NR) * list (tensor NR) * list (option maxidx)) * list (tensor NR))
+                   (il : nat * layer NR) => _).
+  assert (G : forall rest done (xl gfin : list R) d gs0 ws0 bs0 fbs0 ps0,
+             specs = done ++ rest -> chainedS rest d -> length xl = d -> length gfin = lastD rest d ->
+             (forall t, (t < length rest)%nat ->
+                nth_error (fw_post f) (length done + t) = Some (t_single NR (nth t (insL rest xl) []))) ->
+             (forall t, (t < length rest)%nat ->
+                nth_error (fw_pre f) (length done + t) = Some (t_single NR (nth t (presL rest xl) []))) ->
+             last_opt gs0 = Some (t_single NR gfin) ->
+             let '(gin, gps, gins) := gradsL rest xl gfin in
+             foldM step (combine (seq 0 (length rest)) (rev (map mkL rest))) (gs0, ws0, bs0, fbs0, ps0)
+             = Ok (gs0 ++ gs_of gins, ws0 ++ ws_of rest gps, bs0 ++ bs_of rest gps, fbs0, ps0 ++ gs_of gins)).
+  { induction rest as [|[s th] rest IH]; intros done xl0 gfin d0 gs0 ws0 bs0 fbs0 ps0 Hsp Hch0 Hxl0 Hg0 Hpo Hpr Hlast.
+    - cbn [gradsL length seq map rev combine foldM gs_of ws_of bs_of]. rewrite !app_nil_r. reflexivity.
+    - cbn [gradsL]. cbn [chainedS lastD] in Hch0, Hg0. destruct Hch0 as (Hn & Ho & Hn0 & Ha & Hch0).
+      specialize (IH (done ++ (s, th) :: nil) (outL (s, th) xl0) gfin (ls_o s) gs0 ws0 bs0 fbs0 ps0).
+      pose proof (gradsL_gin_length rest (ls_o s) (outL (s, th) xl0) gfin Hch0 Hg0) as Hglen.
+      destruct (gradsL rest (outL (s, th) xl0) gfin) as [[gmid gps] gins] eqn:Eg. cbn [fst] in Hglen.
+      cbn [length map rev]. rewrite seq_S. cbn [Nat.add].
+      rewrite combine_snoc by (rewrite seq_length, rev_length, map_length; reflexivity).
+      rewrite foldM_app. rewrite IH.
+      + cbn [bind foldM]. unfold step at 1.
+        assert (Hlen : len = (length done + S (length rest))%nat).
+        { unfold len. rewrite Hsp, app_length. reflexivity. }
+        replace (len - length rest - 1)%nat with (length done) by lia.
+        cbn [alist_get].
+        pose proof (Hpo 0%nat ltac:(cbn [length]; lia)) as Hp0. rewrite Nat.add_0_r in Hp0. cbn [insL nth] in Hp0.
+        pose proof (Hpr 0%nat ltac:(cbn [length]; lia)) as Hr0. rewrite Nat.add_0_r in Hr0. cbn [presL nth] in Hr0.
+        unfold nth_res. rewrite Hp0, Hr0. cbn [bind].
+        assert (Elast : last_opt (gs0 ++ gs_of gins) = Some (t_single NR gmid)).
+        { (* the gradient handed down by the layers behind *)
+          destruct rest as [|[s' th'] rest'].
+          - cbn [gradsL] in Eg. injection Eg as <- _ <-. cbn [gs_of map rev]. rewrite app_nil_r. exact Hlast.
+          - cbn [gradsL] in Eg. destruct (gradsL rest' _ gfin) as [[gm' gp'] gi']. injection Eg as <- _ <-.
+            unfold gs_of. cbn [map rev]. rewrite app_assoc. apply last_opt_app. }
+        rewrite Elast. cbn [bind].
+        assert (Emax : nth_error (fw_max f) (length done) = Some None).
+        { rewrite Hmax. apply nth_error_repeat. fold len. lia. }
+        rewrite Emax. cbn [bind mkL fst snd layer_backward].
+        pose proof (@mk_dense_backward s th xl0 gmid Ho Hn0 ltac:(congruence) Hglen Ha) as Hb. cbv zeta in Hb.
+        unfold preL. cbn [fst snd].
+        rewrite Hb. cbn [bind fst snd]. unfold gs_of, ws_of, bs_of. cbn [combine map rev]. rewrite !app_assoc. reflexivity.
+      + rewrite <- app_assoc. exact Hsp.
+      + exact Hch0.
+      + apply length_outL.
+      + exact Hg0.
+      + intros t Ht. specialize (Hpo (S t) ltac:(cbn [length]; lia)). cbn [insL nth] in Hpo.
+        rewrite app_length. cbn [length]. rewrite <- Hpo. f_equal. lia.
+      + intros t Ht. specialize (Hpr (S t) ltac:(cbn [length]; lia)). cbn [presL nth] in Hpr.
+        rewrite app_length. cbn [length]. rewrite <- Hpr. f_equal. lia.
+      + exact Hlast. }
+  specialize (G specs [] xl gl d (t_single NR gl :: nil) [] [] (fw_fb f) (t_single NR gl :: nil) eq_refl Hch Hxl Hgl).
+  destruct (gradsL specs xl gl) as [[gin gps] gins].
+  change (seq 0 len) with (seq 0 (length specs)). rewrite G.
+  - reflexivity.
+  - intros t Ht. cbn [length Nat.add]. rewrite Hpost. rewrite nth_error_map.
+    rewrite nth_error_app1 by (rewrite length_insL; exact Ht).
+    rewrite (nth_error_nth' _ []) by (rewrite length_insL; exact Ht). reflexivity.
+  - intros t Ht. cbn [length Nat.add]. rewrite Hpre. apply map_nth_error. apply nth_error_nth'.
+    rewrite length_presL. exact Ht.
+  - reflexivity.
+Qed.
+
+(* ================= the gradients are the derivative ================= *)
+(* layers with parameter curves: (spec, curve, tangent at h0) *)
+Definition curves := list (lspec * (R -> vec) * vec).
+Definition at_t (cs : curves) (t : R) : list (lspec * vec) :=
+  map (fun c => (fst (fst c), snd (fst c) t)) cs.
+
+Fixpoint smoothL (specs : list (lspec * vec)) (xl : list R) : Prop :=
+  match specs with
+  | [] => True
+  | (s, th) :: rest =>
+      (forall i, (i < ls_o s)%nat -> smooth_at (ls_act s) (preD (ls_o s) (ls_n s) (eff s th) (vof xl) i)) /\
+      smoothL rest (outL (s, th) xl)
+  end.
+
+Fixpoint curves_ok (cs : curves) (h0 : R) : Prop :=
+  match cs with
+  | [] => True
+  | (s, Th, Th') :: rest => dvec (ls_o s * ls_n s + ls_o s) Th h0 Th' /\ curves_ok rest h0
+  end.
+
+(* <parameter gradients, parameter tangents>; a layer without bias has no bias tangent *)
+Fixpoint pairing (cs : curves) (gps : list vec) : R :=
+  match cs, gps with
+  | (s, _, Th') :: rest, gp :: gps' => dotp (ls_o s * ls_n s + ls_o s) gp (eff s Th') + pairing rest gps'
+  | _, _ => 0
+  end.
+
+Lemma chainedS_at_t cs t t' d : chainedS (at_t cs t) d -> chainedS (at_t cs t') d.
+Proof.
+  revert d; induction cs as [|[[s Th] Th'] rest IH]; intros d H; [exact I|].
+  cbn [at_t map chainedS fst snd] in *. destruct H as (H1 & H2 & H3 & H4 & H5).
+  repeat split; try assumption. apply IH. exact H5.
+Qed.
+Lemma lastD_at_t cs t t' d : lastD (at_t cs t) d = lastD (at_t cs t') d.
+Proof.
+  revert d; induction cs as [|[[s Th] Th'] rest IH]; intros d; [reflexivity|].
+  cbn [at_t map lastD fst snd]. apply IH.
+Qed.
+
+Lemma dvec_eff s (Th : R -> vec) Th' h0 :
+  dvec (ls_o s * ls_n s + ls_o s) Th h0 Th' ->
+  dvec (ls_o s * ls_n s + ls_o s) (fun t => eff s (Th t)) h0 (eff s Th').
+Proof.
+  intros H i Hi. unfold eff. destruct (ls_bias s); [apply H; exact Hi|].
+  destruct (i <? ls_o s * ls_n s)%nat; [apply H; exact Hi|apply @is_derive_const].
+Qed.
+
+Theorem gradsL_derivative (cs : curves) : forall d (X : R -> list R) (X' : vec) h0
+    (m : nat) (Lf : list R -> R) (gL : list R -> list R),
+  chainedS (at_t cs h0) d -> (forall t, length (X t) = d) -> dvec d (fun t => vof (X t)) h0 X' ->
+  curves_ok cs h0 -> smoothL (at_t cs h0) (X h0) -> m = lastD (at_t cs h0) d ->
+  (forall (Y : R -> list R) Y', (forall t, length (Y t) = m) -> dvec m (fun t => vof (Y t)) h0 Y' ->
+        is_derive (fun t => Lf (Y t)) h0 (dotp m (vof (gL (Y h0))) Y')) ->
+  let '(gin, gps, _) := gradsL (at_t cs h0) (X h0) (gL (predL (at_t cs h0) (X h0))) in
+  is_derive (fun t => Lf (predL (at_t cs t) (X t))) h0 (pairing cs gps + dotp d (vof gin) X').
+Proof.
+  induction cs as [|[[s Th] Th'] rest IH]; intros d X X' h0 m Lf gL Hch HXl HX Hcu Hsm Hm HL.
+  - cbn [at_t map gradsL predL pairing lastD] in *. rewrite Rplus_0_l. subst m. apply HL; assumption.
+  - cbn [at_t map fst snd] in *. fold (at_t rest h0) in *. cbn [chainedS curves_ok smoothL lastD] in Hch, Hcu, Hsm, Hm.
+    destruct Hch as (Hn & Ho & Hn0 & Ha & Hch). destruct Hcu as [HTh Hcu]. destruct Hsm as [Hsm0 Hsm].
+    cbn [gradsL predL].
+    (* the first layer as a stage *)
+    pose proof (@dense_stage_ok (ls_o s) (ls_n s) (phi_of (ls_act s)) (dphi_of (ls_act s))
+                  (eff s (Th h0)) (vof (X h0))
+                  (fun i Hi => @phi_derive (ls_act s) _ (Hsm0 i Hi))) as Hst.
+    destruct (Hst (fun t => eff s (Th t)) (fun t => vof (X t)) (eff s Th') X' h0
+                  (fun _ _ => eq_refl) (fun _ _ => eq_refl) (@dvec_eff s Th Th' h0 HTh)
+                  ltac:(cbn [dense_stage din]; rewrite Hn; exact HX)) as (Y' & HY & Hadj).
+    cbn [dense_stage din dpar dout] in HY, Hadj.
+    set (Y := fun t => outL (s, Th t) (X t)).
+    assert (HYl : forall t, length (Y t) = ls_o s) by (intros t; apply length_outL).
+    assert (HYd : dvec (ls_o s) (fun t => vof (Y t)) h0 Y').
+    { intros i Hi. apply (is_derive_ext (fun t => sfwd (stage_of s) (eff s (Th t)) (vof (X t)) i)); [|apply HY; exact Hi].
+      intros t. unfold Y, outL. cbn [fst snd]. rewrite vof_lof by exact Hi. reflexivity. }
+    specialize (IH (ls_o s) Y Y' h0 m Lf gL Hch HYl HYd Hcu Hsm Hm HL).
+    change (outL (s, Th h0) (X h0)) with (Y h0).
+    destruct (gradsL (at_t rest h0) (Y h0) (gL (predL (at_t rest h0) (Y h0)))) as [[gmid gps] gins].
+    specialize (Hadj (vof gmid)).
+    fold (stage_of s) in Hadj.
+    set (b := sbwd (stage_of s) (eff s (Th h0)) (vof (X h0)) (vof gmid)) in *.
+    cbn [pairing].
+    replace (dotp (ls_o s * ls_n s + ls_o s) (snd b) (eff s Th') + pairing rest gps + dotp d (vof (lof (ls_n s) (fst b))) X')
+      with (pairing rest gps + dotp (ls_o s) (vof gmid) Y').
+    + apply (is_derive_ext (fun t => Lf (predL (at_t rest t) (Y t)))); [intros t; reflexivity|exact IH].
+    + rewrite Hadj. rewrite <- Hn.
+      assert (E : dotp (ls_n s) (vof (lof (ls_n s) (fst b))) X' = dotp (ls_n s) (fst b) X').
+      { unfold dotp. apply bsum_ext. intros i Hi. rewrite vof_lof by exact Hi. reflexivity. }
+      rewrite E. ring.
+Qed.
+
+(* ================= the objective ================= *)
+Lemma map2_lof (g : R -> R -> R) (a b : list R) m : length a = m -> length b = m ->
+  map2 g a b = lof m (fun i => g (vof a i) (vof b i)).
+Proof.
+  revert a b; induction m as [|m IH]; intros [|x a] [|y b] Ha Hb; cbn [length] in *; try discriminate; [reflexivity|].
+  cbn [map2]. unfold lof, build1. cbn [seq map]. f_equal. rewrite <- seq_shift, map_map.
+  rewrite (IH a b) by lia. reflexivity.
+Qed.
+
+Lemma Rsum_lof m (v : vec) : Rsum (lof m v) = bsum m v.
+Proof. reflexivity. Qed.
+
+Lemma loss_mse_single (yl tgl : list R) m : length yl = m -> length tgl = m ->
+  loss (N := NR) MSE None (t_single NR yl) (t_single NR tgl)
+  = Ok (mseR m (vof tgl) (vof yl), t_single NR (lof m (mse_gradR m (vof tgl) (vof yl)))).
+Proof.
+  intros Hy Ht. unfold loss, get_flat, grad_tensor. cbn [t_single tdata bind grad_fun].
+  rewrite C06.loss_formula_MSE. cbn [T NumR]. rewrite Ht.
+  rewrite (map2_lof (fun a q => (a - q) * (a - q) / INR m) tgl yl Ht Hy), Rsum_lof.
+  rewrite (map2_lof (mse_grad NR (of_nat m)) tgl yl Ht Hy). do 3 f_equal.
+  apply lof_ext. intros i Hi. unfold mse_grad, mse_gradR, neg_two. rewrite C06.of_nat_R.
+  cbn [ndiv nmul nsub nofZ NumR]. reflexivity.
+Qed.
+
+(* ================= end to end ================= *)
+(* the model network whose dense layers hold the parameters theta_k(t) *)
+Definition net_at (n0 : network NR) (cs : curves) (t : R) : network NR :=
+  set_layers n0 (map mkL (at_t cs t)).
+
+Definition loss_of (r : res (grads NR * R)) : R := match r with Ok (_, l) => l | Panic _ => 0 end.
+
+Theorem mlp_model_gradient (n0 : network NR) (cs : curves) d (xl tgl : list R) h0 :
+  n_connect n0 = [] -> n_loopbacks n0 = [] -> n_objective n0 = (MSE, None) ->
+  chainedS (at_t cs h0) d -> length xl = d -> length tgl = lastD (at_t cs h0) d -> (0 < length tgl)%nat ->
+  curves_ok cs h0 -> smoothL (at_t cs h0) xl ->
+  exists gps : list vec,
+    (* what the model's forward / objective / backward return at the parameters theta(h0) ... *)
+    sample_grad (net_at n0 cs h0) (t_single NR xl, t_single NR tgl)
+      = Ok ((ws_of (at_t cs h0) gps, bs_of (at_t cs h0) gps),
+            mseR (length tgl) (vof tgl) (vof (predL (at_t cs h0) xl))) /\
+    (* ... the loss the model computes at every theta(t) ... *)
+    (forall t, loss_of (sample_grad (net_at n0 cs t) (t_single NR xl, t_single NR tgl))
+               = mseR (length tgl) (vof tgl) (vof (predL (at_t cs t) xl))) /\
+    (* ... and its derivative along the curve is <returned gradients, tangent> *)
+    is_derive (fun t => loss_of (sample_grad (net_at n0 cs t) (t_single NR xl, t_single NR tgl))) h0
+              (pairing cs gps).
+Proof.
+  intros Hc Hl Hobj Hch Hxl Htl Hpos Hcu Hsm.
+  set (m := length tgl) in *.
+  (* the model's sample_grad at an arbitrary t *)
+  assert (SG : forall t,
+             let specs := at_t cs t in
+             let yl := predL specs xl in
+             let '(gin, gps, gins) := gradsL specs xl (lof m (mse_gradR m (vof tgl) (vof yl))) in
+             sample_grad (net_at n0 cs t) (t_single NR xl, t_single NR tgl)
+             = Ok ((ws_of specs gps, bs_of specs gps), mseR m (vof tgl) (vof yl))).
+  { intros t specs yl.
+    assert (Hch_t : chainedS specs d) by (apply (@chainedS_at_t cs h0 t d); exact Hch).
+    assert (Hyl : length yl = m).
+    { unfold yl. rewrite (@length_predL specs d xl Hch_t Hxl). unfold specs. rewrite (lastD_at_t cs t h0 d). symmetry. exact Htl. }
+    pose proof (@forward_mlp (net_at n0 cs t) specs d xl Hc Hl eq_refl Hch_t Hxl) as Hf.
+    set (f := {| fw_pre := map (t_single NR) (presL specs xl);
+                 fw_post := t_single NR xl :: map (t_single NR) (tl (insL specs xl) ++ match specs with [] => [] | _ => predL specs xl :: nil end);
+                 fw_max := repeat None (length specs); fw_fb := [] |}) in *.
+    assert (Hpost : fw_post f = map (t_single NR) (insL specs xl ++ predL specs xl :: nil)).
+    { unfold f. cbn [fw_post]. destruct specs as [|p r]; reflexivity. }
+    pose proof (@backward_mlp (net_at n0 cs t) specs d xl (lof m (mse_gradR m (vof tgl) (vof yl))) f
+                  Hc eq_refl Hch_t Hxl
+                  ltac:(rewrite length_lof; unfold specs; rewrite (lastD_at_t cs t h0 d); exact Htl)
+                  eq_refl Hpost eq_refl) as Hb.
+    destruct (gradsL specs xl (lof m (mse_gradR m (vof tgl) (vof yl)))) as [[gin gps] gins].
+    unfold sample_grad. cbn [fst snd]. rewrite Hf. cbn [bind].
+    assert (Elast : last_opt (fw_post f) = Some (t_single NR yl)).
+    { rewrite Hpost, map_app. cbn [map]. apply last_opt_app. }
+    rewrite Elast. cbn [bind]. cbn [net_at set_layers n_objective]. rewrite Hobj. cbn [fst snd].
+    rewrite (@loss_mse_single yl tgl m Hyl eq_refl). cbn [bind fst snd].
+    change (set_layers n0 (map mkL specs)) with (net_at n0 cs t).
+    rewrite Hb. reflexivity. }
+  pose proof (SG h0) as SG0. cbv zeta in SG0.
+  destruct (gradsL (at_t cs h0) xl (lof m (mse_gradR m (vof tgl) (vof (predL (at_t cs h0) xl))))) as [[gin gps] gins] eqn:Eg.
+  exists gps. split; [exact SG0|].
+  assert (LV : forall t, loss_of (sample_grad (net_at n0 cs t) (t_single NR xl, t_single NR tgl))
+                         = mseR m (vof tgl) (vof (predL (at_t cs t) xl))).
+  { intros t. pose proof (SG t) as SGt. cbv zeta in SGt.
+    destruct (gradsL (at_t cs t) xl _) as [[gin' gps'] gins']. rewrite SGt. reflexivity. }
+  split; [exact LV|].
+  apply (is_derive_ext (fun t => mseR m (vof tgl) (vof (predL (at_t cs t) xl)))); [intros t; symmetry; apply LV|].
+  pose proof (@gradsL_derivative cs d (fun _ => xl) (fun _ => 0) h0 m
+                (fun yl => mseR m (vof tgl) (vof yl))
+                (fun yl => lof m (mse_gradR m (vof tgl) (vof yl)))
+                Hch (fun _ => Hxl) (fun i Hi => @is_derive_const _ _ (vof xl i) h0) Hcu Hsm Htl) as D.
+  cbv beta in D. rewrite Eg in D.
+  replace (pairing cs gps) with (pairing cs gps + dotp d (vof gin) (fun _ => 0)).
+  - apply D. intros Y Y' HYl HYd.
+    replace (dotp m (vof (lof m (mse_gradR m (vof tgl) (vof (Y h0))))) Y') with (dotp m (mse_gradR m (vof tgl) (vof (Y h0))) Y').
+    + apply (@mse_contract m (vof tgl) (fun t => vof (Y t)) Y' h0 Hpos HYd).
+    + unfold dotp. apply bsum_ext. intros i Hi. rewrite vof_lof by exact Hi. reflexivity.
+  - unfold dotp. rewrite (@bsum_ext d _ (fun _ => 0)) by (intros; ring). rewrite bsum_zero. ring.
 Qed.
